@@ -248,15 +248,43 @@ def main(argv=None) -> int:
         fn_keys = [k for k in fn_keys if a.only in k]
         lemma_keys = [k for k in lemma_keys if a.only in k]
     jobs = [("fn", k, plan.CONTRACTS, tier, pid) for k in fn_keys] + [("lemma", k, plan.CONTRACTS, tier, pid) for k in lemma_keys]
-    reports = run_pool(jobs, a.jobs)
+    # extra deductive obligations (regex lemmas, ATN walk obligations ...) provided by the plan run next to the function pool
+    import concurrent.futures as cf
+    import multiprocessing as mp
 
-    # extra deductive obligations (regex lemmas, ATN walk obligations ...) provided by the plan
+    extras = [] if a.only else list(getattr(plan, "EXTRA", []))
+    ex = cf.ProcessPoolExecutor(max_workers=max(1, len(extras)), mp_context=mp.get_context("fork")) if extras else None
+    futs = [(fn, ex.submit(fn, tier, seed)) for fn in extras]
+    reports = run_pool(jobs, a.jobs)
+    # second chance: a verdict left open only by solver budgets (unknown / timeout under load) is re-run with four times the
+    # budget and few workers, so that a busy machine does not turn a proof into "undecided"
+    def _only_budget(r):
+        if r.get("status") != "undecided" or r.get("cached"):
+            return False
+        reason = r.get("undecided_reason") or ""
+        if reason.startswith(("UNSUPPORTED", "SPEC-ERROR", "recursion", "VACUOUS")) or "path budget" in reason:
+            return False
+        open_obs = [o for o in r.get("obligations", []) if o["status"] != "proved"]
+        return bool(open_obs) and all(o["status"] == "undecided" and any(w in (o.get("why") or "") for w in ("unknown", "timeout", "canceled")) for o in open_obs)
+
+    retry = [j for j, r in zip(jobs, reports) if _only_budget(r)]
+    if retry:
+        os.environ["PYVC_TIMEOUT_SCALE"] = "4"
+        again = run_pool(retry, max(1, min(a.jobs, 4)))
+        os.environ.pop("PYVC_TIMEOUT_SCALE", None)
+        byjob = {(j[0], j[1]): r for j, r in zip(retry, again)}
+        for i, j in enumerate(jobs):
+            if (j[0], j[1]) in byjob:
+                byjob[(j[0], j[1])]["second_chance"] = True
+                reports[i] = byjob[(j[0], j[1])]
     extra_reports = []
-    for fn in getattr(plan, "EXTRA", []):
+    for fn, fu in futs:
         try:
-            extra_reports.extend(fn(tier, seed))
+            extra_reports.extend(fu.result())
         except Exception:
             extra_reports.append({"function": f"extra:{fn.__name__}", "status": "crash", "traceback": traceback.format_exc(), "obligations": [], "vcs": 0, "vcs_discharged": 0})
+    if ex:
+        ex.shutdown()
     reports += extra_reports
 
     violations = []  # (obname, replay path, suffix)
